@@ -68,16 +68,27 @@ func (d *drifter) BeforeScriptChange(s *interpreter.State)  { d.rec.BeforeScript
 func (d *drifter) AfterScriptChange(s *interpreter.State)   { d.rec.AfterScriptChange(s); d.f(s) }
 func (d *drifter) AfterSuccess(s *interpreter.State)        { d.rec.AfterSuccess(s); d.f(s) }
 func (d *drifter) AfterError(s *interpreter.State, e error) { d.rec.AfterError(s, e); d.f(s) }
+func driftData(b []byte) {
+	for i := range b {
+		b[i]++
+	}
+}
 func (d *drifter) BeforeStackPush(s *interpreter.State, b []byte) {
 	d.rec.BeforeStackPush(s, b)
 	d.f(s)
+	driftData(b)
 }
 func (d *drifter) AfterStackPush(s *interpreter.State, b []byte) {
 	d.rec.AfterStackPush(s, b)
 	d.f(s)
+	driftData(b)
 }
-func (d *drifter) BeforeStackPop(s *interpreter.State)          { d.rec.BeforeStackPop(s); d.f(s) }
-func (d *drifter) AfterStackPop(s *interpreter.State, b []byte) { d.rec.AfterStackPop(s, b); d.f(s) }
+func (d *drifter) BeforeStackPop(s *interpreter.State) { d.rec.BeforeStackPop(s); d.f(s) }
+func (d *drifter) AfterStackPop(s *interpreter.State, b []byte) {
+	d.rec.AfterStackPop(s, b)
+	d.f(s)
+	driftData(b)
+}
 
 // lifecycle automaton: the same states and transitions as coq/model/Debug.v (lstate / lstep), extended
 // with the stack push/pop callbacks, which may only occur while an opcode runs (after BO), at the end of a
